@@ -7975,7 +7975,13 @@ func (l *NumberLiteral) RenderBytes(buf *bytes.Buffer, posmap BufPositionsMap) *
 	if l.Val > math.MaxInt {
 		_, _ = buf.WriteString(strconv.FormatFloat(l.Val, 'f', 1, 64))
 	} else {
-		_, _ = buf.WriteString(strconv.FormatFloat(l.Val, 'f', -1, 64))
+		text := strconv.FormatFloat(l.Val, 'f', -1, 64)
+		_, _ = buf.WriteString(text)
+		if !strings.ContainsAny(text, ".eEnN") {
+			// an integral value must not be printed like an integer: the store re-parses the printed
+			// condition and would get an IntegerLiteral (iv / 2.0 becomes an integer division)
+			_, _ = buf.WriteString(".0")
+		}
 	}
 	if posmap != nil {
 		posmap[l] = Position{Begin: Begin, End: buf.Len()}
